@@ -83,7 +83,7 @@ func c24existing(r *rand.Rand, view kvm.Model) []byte {
 }
 
 func runC24(c *ev.Ctx) {
-	c.Rule = "one underlying store (memory, flushable/memory, LevelDB or Pebble, behind a Compact recorder) with five handles: raw, table(p1), table(p2), nested table(p1).NewTable(p3) and the three-level table(p1).NewTable(p3).NewTable(p4); one key in ten is 56..68 bytes long; p1,p2,p3 drawn from {00, ff, a, ab, a·ff, ff·ff, b, 00·00, a·ff·ff, fe} (nested and non-nested pairs). Random sequences of 70 operations through random handles: put, delete, get/has, iterate(prefix,start), batch put/delete/write/replay, snapshot take/read/release, Compact(nil,nil). " +
+	c.Rule = "one underlying store (memory, flushable/memory, LevelDB or Pebble, behind a Compact recorder) with five handles: raw, table(p1), table(p2), nested table(p1).NewTable(p3) and the three-level table(p1).NewTable(p3).NewTable(p4); one key in ten is 56..68 bytes long; p1,p2,p3 drawn from {00, ff, a, ab, a·ff, ff·ff, b, 00·00, a·ff·ff, fe} (nested and non-nested pairs). Random sequences of 70 operations through random handles: put, delete, get/has, iterate(prefix,start), batch put/delete/write/replay (into a recorder, or into a batch of another handle which is then written), snapshot take/read/release, Compact(nil,nil). " +
 		"Oracle after EVERY operation: the raw content of the underlying store equals the model (so a write through a table touched only p+key), every table's full iteration equals {k minus prefix | k has the prefix}, point reads agree, snapshots keep their creation-time view, batch Replay yields un-prefixed keys; every Compact(nil,nil) on a table reached the underlying store as (start <= prefix, limit nil or greater than every key with the prefix). " +
 		"non-trivial = distinct sequences with a non-nested table pair that both received writes, a key equal to the bare prefix (empty table key), and a whole-table Compact followed by more operations"
 	c.Assumptions = []string{"non-nil keys/values", "table prefixes are non-empty"}
@@ -195,6 +195,30 @@ func runC24(c *ev.Ctx) {
 				case c < 70:
 					if h.batch == nil {
 						return ""
+					}
+					if r.Intn(2) == 0 {
+						// replay into a batch of another handle (copying one table's pending writes into another table): the
+						// operations arrive there un-prefixed and get the target's prefix
+						h2 := hs[r.Intn(len(hs))]
+						log = append(log, h.name+" batch replay into a batch of "+h2.name+", written")
+						tb := h2.db.NewBatch()
+						if err := h.batch.Replay(tb); err != nil {
+							return "Replay error " + err.Error()
+						}
+						if err := tb.Write(); err != nil {
+							return "batch Write error " + err.Error()
+						}
+						for _, o := range h.pend {
+							fk := string(append(append([]byte{}, h2.prefix...), o.k...))
+							if o.del {
+								delete(m, fk)
+							} else {
+								m[fk] = o.v
+							}
+						}
+						wrote[h2.name] = true
+						stats["replay_into_another_handles_batch"]++
+						break
 					}
 					log = append(log, h.name+" batch replay")
 					rw := &recWriter{}
